@@ -36,6 +36,8 @@ pub struct StmtEvent {
     pub phase: Phase,
     pub scope_depth: usize,
     pub flow: Flow,
+    /// statement kind (variant name of `ast::Statement`)
+    pub kind: &'static str,
 }
 
 #[derive(Clone, Debug, Default, PartialEq, Eq)]
@@ -55,6 +57,7 @@ thread_local! {
 
     static STMT_FUEL: Cell<u64> = Cell::new(u64::MAX);
     static STMT_COUNT: Cell<u64> = Cell::new(0);
+    static LOOP_TICKS: Cell<u64> = Cell::new(0);
     static STMT_LOG: RefCell<Option<Vec<StmtEvent>>> = RefCell::new(None);
 
     static DICT_LOG: RefCell<Option<Vec<(&'static str, Vec<String>)>>> = RefCell::new(None);
@@ -144,26 +147,42 @@ pub fn take_dict_log() -> Vec<(&'static str, Vec<String>)> {
 pub fn arm_stmt(fuel: u64, log: bool) {
     STMT_FUEL.with(|f| f.set(fuel));
     STMT_COUNT.with(|c| c.set(0));
+    LOOP_TICKS.with(|c| c.set(0));
     STMT_LOG.with(|l| *l.borrow_mut() = if log { Some(Vec::new()) } else { None });
 }
 
-pub fn stmt(phase: Phase, scope_depth: usize, flow: Flow) {
+fn burn_stmt_fuel() {
+    let exhausted = STMT_FUEL.with(|f| {
+        let v = f.get();
+        if v == u64::MAX {
+            false
+        } else if v == 0 {
+            true
+        } else {
+            f.set(v - 1);
+            false
+        }
+    });
+    if exhausted {
+        panic!("{} (statements)", FUEL_PANIC);
+    }
+}
+
+/// one loop iteration is about to start: burns fuel like a statement (a loop with an empty
+/// body executes no statement at all), but is not counted as one
+pub fn loop_tick() {
+    LOOP_TICKS.with(|c| c.set(c.get() + 1));
+    burn_stmt_fuel();
+}
+
+pub fn loop_ticks() -> u64 {
+    LOOP_TICKS.with(|c| c.get())
+}
+
+pub fn stmt(phase: Phase, scope_depth: usize, flow: Flow, kind: &'static str) {
     if phase == Phase::Before {
         STMT_COUNT.with(|c| c.set(c.get() + 1));
-        let exhausted = STMT_FUEL.with(|f| {
-            let v = f.get();
-            if v == u64::MAX {
-                false
-            } else if v == 0 {
-                true
-            } else {
-                f.set(v - 1);
-                false
-            }
-        });
-        if exhausted {
-            panic!("{} (statements)", FUEL_PANIC);
-        }
+        burn_stmt_fuel();
     }
     STMT_LOG.with(|l| {
         if let Some(log) = l.borrow_mut().as_mut() {
@@ -172,6 +191,7 @@ pub fn stmt(phase: Phase, scope_depth: usize, flow: Flow) {
                 phase,
                 scope_depth,
                 flow,
+                kind,
             });
         }
     });
